@@ -79,10 +79,15 @@ def validate(sc, R, metas, selftest_from):
     bad_fp, bad_line = corrupted_copy(sc, selftest_from)
     val = V.validate_traces(sc, "Scheduler", "SchedulerTraceMC.tla", "SchedulerTrace.cfg", files + [bad_fp], timeout=2400)
     mine = [r for r in val["rejections"] if r[0] == bad_fp]
-    if [r[1] for r in mine] != [bad_line]:
-        raise V.Broken("self-test: a trace with a corrupted occurrence (line %d) was not rejected there (%s)" % (bad_line, [r[1] for r in mine]))
-    V.log("self-test: corrupted occurrence at line %d rejected" % bad_line)
     val["rejections"] = [r for r in val["rejections"] if r[0] != bad_fp]
+    lines_rej = [r[1] for r in mine]
+    if lines_rej == [bad_line]:
+        V.log("self-test: corrupted occurrence at line %d rejected" % bad_line)
+    elif len(lines_rej) == 1 and lines_rej[0] is not None and lines_rej[0] < bad_line and val["rejections"]:
+        # the recorded trace is itself rejected before the corrupted line (a genuine rejection, reported below)
+        V.log("self-test: the trace is already rejected at line %d, before the corrupted line %d" % (lines_rej[0], bad_line))
+    else:
+        raise V.Broken("self-test: a trace with a corrupted occurrence (line %d) was not rejected there (%s)" % (bad_line, lines_rej))
     val["accepted"] = not val["rejections"]
     R.states += val["states"]
     R.handle_validation(val)
@@ -159,7 +164,8 @@ def run(sc, tier, seed):
     cfg, ntraces, lanes, procs, moves = TIERS[tier]
     # ---- design level ----
     R.add_model(V.model_check(sc, "Scheduler", "SchedulerMC.tla", cfg, workers=8 if tier == "quick" else 16, timeout=1700))
-    R.add_model(V.model_check(sc, "Scheduler", "SchedulerMC.tla", "Scheduler_live.cfg", workers=4, timeout=1700))
+    live = "Scheduler_live.cfg" if tier == "quick" else "Scheduler_live_thorough.cfg"
+    R.add_model(V.model_check(sc, "Scheduler", "SchedulerMC.tla", live, workers=4 if tier == "quick" else 8, timeout=2400))
     obs = {}
     readings = [("Scheduler_obs_rerun.cfg", "NeverRerunAcrossEpochs")]
     if tier == "thorough":
